@@ -43,6 +43,19 @@ Constructing a `QuicDecryptor` calls `bulk_cipher(key)`, which validates the key
 to return keys of the length the selected cipher takes (true of the real HKDF calls with `key_length`), except that a
 `None` early key makes the third try/except fire — that is `KeyGroups.early = none`.
 
+OBSERVATIONS on the code as it is (mirrored here; each replayed on the real code by harness/q2b_session.py):
+  * `check_key_epoch` before the AEAD check: ONE damaged/forged 1-RTT packet with a flipped key-phase bit advances the
+    epoch of its direction for good; the next genuine packet flips it again; every later packet of that direction is
+    tried with a wrong generation and lost (`Props.C02Session.damaged_key_phase_advances_epoch`).
+  * `dev_quic_keys` raises UnboundLocalError when a handshake- or application-secret line is missing (its locals are
+    not initialised), so the "Missing Key Material" handlers of set_tls_decryptors never see that case: the exception
+    leaves through handle_crypto_frame (CRYPTO frame not appended, `new_data` stays set) and with only the two
+    `*_TRAFFIC_SECRET_0` lines in the key log no Application decryptor is ever installed.
+  * a second `set_tls_decryptors` (e.g. after a later handshake message) resets "Application" to one generation
+    while the epochs keep their values.
+  * the only raise sites outside decrypt_packet's try/except need a `ShortQuicPacket` typed VERSION_NEG / INITIAL,
+    which `extract_quic_packet` never builds (`session_total`, `session_total_counterexample`).
+
 NOT modelled: `alpn`, `greasy_bit`, frame/packet buffers that are never read, `build_output`, `reset()` (never
 called), `matches_session_*` (main-loop model), the payload of the VERSION_NEG pseudo frame (`Pkt` has no field
 for it; it is stored, never read here), the value `None` inside a CID set (a long Initial with `scid is None` adds
